@@ -9,7 +9,7 @@
    Proofs/WritersDict.v: wf_db (keys, field names, roles unique up to case; every role has a person -- what the API
    builds), map_ids.  Proofs/WritersTree.v: parts_ok p := reparse_person p = Ok p, yaml_ok, xml_ok. *)
 From Pybtex Require Import Base.Prelude Base.PyChar Base.PyStr Model.BibtexStr Model.Names Model.Scanner Model.BibParser Model.Writers
-  Proofs.Writers Proofs.WritersDict Proofs.WritersTree Proofs.WritersQuote Proofs.WritersPerson Proofs.WritersChain Proofs.WritersField.
+  Proofs.Writers Proofs.WritersDict Proofs.WritersTree Proofs.WritersQuote Proofs.WritersPerson Proofs.WritersChain Proofs.WritersField Proofs.WritersName.
 
 (* ---- identifier lower-casing changes nothing but the letter case of keys, entry types, field names, roles *)
 Theorem lower_only_case : forall d, wf_db d -> lower_db d = Ok (map_ids lower d).
@@ -192,3 +192,23 @@ Print Assumptions field_roundtrip.
 Example ex_field : is_ident (s2l "Title") /\ balanced (s2l "A {B} ""c""") /\ latex_enc (s2l "A {B} ""c""") = s2l "A {B} ""c""" /\
   exists txt, write_field latex_enc (s2l "Title") (s2l "A {B} ""c""") = Ok txt /\ hd 0%N txt = c_comma.
 Proof. repeat split; try (vm_compute; reflexivity). eexists; split; vm_compute; reflexivity. Qed.
+
+(* ---- names through the BibTeX writer and the name parser: for every person that is [expressible]
+   (Proofs/WritersName.v: tokens of plain characters without commas, exactly one first-name token -- BibTeX files
+   every further given name under middle --, a last name, the von part empty or ending with a von token, no
+   last-name token but the final one a von token; is_von_name is the parser's own test) the text
+   Writer._format_name produces ("von Last, First Middle" / "von Last, Jr, First Middle") is parsed by Person(text)
+   into exactly the same five parts, and nothing is reported.
+   Partial: persons without a first name (written "von Last", the First-von-Last form) and braced tokens / special
+   characters are not covered by the theorem (correspondence + oracle). *)
+Theorem bibtex_name_roundtrip_partial : forall p, expressible p -> person_of_string (format_name p) = Ok (p, false).
+Proof. exact bibtex_name_roundtrip_pf. Qed.
+Print Assumptions bibtex_name_roundtrip_partial.
+
+Example ex_expressible : expressible ex_person /\ expressible knuth /\
+  format_name ex_person = s2l "de la Fontaine, Jr., Jean" /\ format_name knuth = s2l "Knuth, Donald E.".
+Proof.
+  unfold expressible. repeat match goal with |- _ /\ _ => split end;
+    first [ reflexivity | discriminate | solve [eexists; reflexivity] | solve [right; reflexivity] | solve [left; reflexivity]
+          | solve [repeat constructor; discriminate] | solve [repeat constructor] ].
+Qed.
